@@ -2,6 +2,7 @@
 mod buffer;
 mod cli;
 mod codec;
+mod front;
 
 use std::io::{BufRead, Write};
 
@@ -13,6 +14,7 @@ fn main() {
         "codec" => codec::handle,
         "buffer" => buffer::handle,
         "cli" => cli::handle,
+        "prep" => |t| front::prep(&t[1..]),
         _ => {
             eprintln!("unknown component {comp}");
             std::process::exit(2);
